@@ -328,8 +328,16 @@ pub fn sim_case_strategy() -> BoxedStrategy<SimCase> {
         // that code paths depending on the population size (many live orders per agent set) are reached
         (cnt(), cnt(), cnt(), pc(), pc(), pc(), pc()),
         (1u32..=200, -1000i32..=4000, prop_oneof![3 => 0u32..=3_000, 1 => Just(10_000u32)], 1u32..=1000, 0u32..=50_000, 1u32..=2_000, 0u32..=2_000),
+        (0u8..50, 600u16..=1300),
     )
-        .prop_map(|((shape, assets, seed, steps, step_size, tick), (n_random, n_noise, n_mom, activity, p_limit, p_market, p_cancel), (trade_vol, mu_milli, sigma_milli, decay_milli, demand_milli, scale_milli, ratio_milli))| SimCase {
+        .prop_map(|((shape, assets, seed, steps, step_size, tick), (n_random, n_noise, n_mom, activity, p_limit, p_market, p_cancel), (trade_vol, mu_milli, sigma_milli, decay_milli, demand_milli, scale_milli, ratio_milli), (big, big_n))| {
+            // 2 % of the configurations: very large populations acting every step (thousands of instructions per
+            // step, over several assets in the multi-asset shapes), few steps
+            let huge = big == 0;
+            let (n_random, n_noise, n_mom) = if huge { (big_n, big_n, big_n / 2) } else { (n_random, n_noise, n_mom) };
+            let (activity, p_limit, p_market) = if huge { (1, 1, 1) } else { (activity, p_limit, p_market) };
+            let (steps, assets) = if huge { (steps.min(12), assets.max(2)) } else { (steps, assets) };
+            SimCase {
             shape,
             assets,
             seed,
@@ -350,6 +358,7 @@ pub fn sim_case_strategy() -> BoxedStrategy<SimCase> {
             demand_milli,
             scale_milli,
             ratio_milli,
+            }
         })
         .boxed()
 }
